@@ -1149,19 +1149,15 @@ class SetPartition(SetIndex):
             drop, set_name = True, "_index"
         else:
             drop, set_name = self.drop, self.other._meta.name
-        kwargs = {
-            "other": self.other._name,
-            "partitions": self._npartitions_input,
-            "ascending": self.ascending,
-            "upsample": self.upsample,
-        }
         index_set = _SetIndexPost(
             shuffled,
             self.other._meta.name,
             drop,
             set_name,
             self.frame._meta.columns.dtype,
-            kwargs,
+            # carry the divisions themselves: the process-local ``divisions_lru``
+            # may have evicted them or be empty (expression unpickled elsewhere)
+            tuple(self._divisions()),
             self.user_divisions,
         )
         return SortIndexBlockwise(index_set)
@@ -1185,7 +1181,7 @@ class _SetIndexPost(Blockwise):
         "drop",
         "set_name",
         "column_dtype",
-        "key_kwargs",
+        "new_divisions",
         "user_divisions",
     ]
     _is_length_preserving = True
@@ -1221,16 +1217,7 @@ class _SetIndexPost(Blockwise):
     def _divisions(self):
         if self.operand("user_divisions") is not None:
             return self._get_culled_divisions(self.operand("user_divisions"))
-        kwargs = self.key_kwargs
-        key = (
-            kwargs["other"],
-            kwargs["partitions"],
-            kwargs["ascending"],
-            128e6,
-            kwargs["upsample"],
-        )
-        assert key in divisions_lru
-        return self._get_culled_divisions(divisions_lru[key][0])
+        return self._get_culled_divisions(self.operand("new_divisions"))
 
 
 class SortIndexBlockwise(Blockwise):
